@@ -282,7 +282,12 @@ def u_multi_gof_prob(root):
 def units(root):
     return [Unit("FitBase.ndf", u_ndf), Unit("MultiFit.ndf", u_multi_ndf), Unit("CostFunction.goodness_of_fit / chi2_probability", u_gof_cost),
             Unit("CostFunction_GaussApproximation.goodness_of_fit", u_gof_gauss_approx), Unit("FitBase.chi2_probability", u_fit_prob),
-            Unit("FitBase.goodness_of_fit", u_fit_gof), Unit("MultiFit.goodness_of_fit / chi2_probability", u_multi_gof_prob), Unit("the fitter's record of fixed parameters (ndf counts its entries): fix / release keep the OTHER entries (shared with C03)", _shared_fitter_books)]
+            Unit("FitBase.goodness_of_fit", u_fit_gof), Unit("MultiFit.goodness_of_fit / chi2_probability", u_multi_gof_prob), Unit("the fitter's record of fixed parameters (ndf counts its entries): fix / release keep the OTHER entries (shared with C03)", _shared_fitter_books), Unit("get_result_dict: goodness of fit and gof/ndf are the fit's (shared with C09)", _shared_result_dict)]
+
+
+def _shared_result_dict(root):
+    from . import c09
+    return c09.u_result_dict(root)
 
 
 def _shared_fitter_books(root):
